@@ -265,3 +265,45 @@ func FieldOf(v ssa.Value) (string, bool) {
 	}
 	return "", false
 }
+
+// SliceLitBytes returns the constant elements of a []byte composite literal (slice of a fresh array
+// whose elements are stored as constants; unstored elements are zero).
+func SliceLitBytes(v ssa.Value) ([]int64, bool) {
+	sl, ok := v.(*ssa.Slice)
+	if !ok {
+		return nil, false
+	}
+	al, ok := sl.X.(*ssa.Alloc)
+	if !ok {
+		return nil, false
+	}
+	arr, ok := Deref(al.Type()).Underlying().(*types.Array)
+	if !ok {
+		return nil, false
+	}
+	out := make([]int64, arr.Len())
+	for _, ref := range *al.Referrers() {
+		ia, ok := ref.(*ssa.IndexAddr)
+		if !ok {
+			continue
+		}
+		ic, ok := ia.Index.(*ssa.Const)
+		if !ok || ic.Value == nil {
+			return nil, false
+		}
+		idx, _ := ConstOfValue(ic.Value)
+		for _, r2 := range *ia.Referrers() {
+			if st, ok := r2.(*ssa.Store); ok {
+				c, ok := st.Val.(*ssa.Const)
+				if !ok || c.Value == nil {
+					return nil, false
+				}
+				val, _ := ConstOfValue(c.Value)
+				if idx >= 0 && idx < int64(len(out)) {
+					out[idx] = val
+				}
+			}
+		}
+	}
+	return out, true
+}
